@@ -536,12 +536,14 @@ def extract_trace(h, rec, fail):
     cmd.insert(2, fail["prop"])
     try:
         p = subprocess.run(cmd, stdout=subprocess.PIPE, stderr=subprocess.PIPE, text=True,
-                           timeout=max(h.cap_s * 2, 240), preexec_fn=_limit(h.mem_gb * 2))
+                           timeout=max(h.cap_s * 2, 240), preexec_fn=_limit(max(h.mem_gb * 3, 30)))
     except subprocess.TimeoutExpired:
+        log("[trace] %s: trace run timed out" % h.name)
         return None
     try:
         j = json.loads(p.stdout)
     except Exception:
+        log("[trace] %s: trace run exit %s, output not JSON (%d bytes) %s" % (h.name, p.returncode, len(p.stdout or ""), (p.stderr or "")[-300:]))
         return None
     vals = []
     saw_trace = False
@@ -561,6 +563,7 @@ def extract_trace(h, rec, fail):
                 if lhs.startswith("goto_symex$$return_value") and "any_raw" in fn and "binary" in v:
                     vals.append(int(v["binary"], 2))
     if not saw_trace:
+        log("[trace] %s: trace run exit %s finished without a trace for %s" % (h.name, p.returncode, fail["prop"]))
         return None     # the trace run did not confirm the failure (timeout/limit): inconclusive, not "empty input"
     return vals
 
